@@ -299,8 +299,13 @@ def outcome_key(kind, log):
     return ("err",)
 
 
-def check_pair(sig, call, ctx, tag="c11", judge_dups=True):
+def check_pair(sig, call, ctx, tag="c11", judge_dups=True, seam="node"):
     """Runs one (signature, call) on both paths. Returns (exp, [(path, kind, log, problem)], paths_problem)."""
+    if seam == "template":
+        tagname, fn = template_tag_for(sig)
+        exp = expected(call, fn)
+        kind, log = observe_template(tagname, call)
+        return exp, [("template", kind, log, judge(exp, call, kind, log))], None
     fn, fast, slow = node_classes(sig, tag)
     exp = expected(call, fn)
     res = []
@@ -316,18 +321,22 @@ def check_pair(sig, call, ctx, tag="c11", judge_dups=True):
 
 
 # ----------------------------------------------------------------------------- shrinking / identities
-MAX_SHRINKS_PER_WORKER = 1500
+MAX_SHRINKS_PER_WORKER = 1000
 
 
-def _fails(sig, toks, path, clause, voff, tag, judge_dups, ctx):
-    call = Call(toks, voff)
-    exp, res, pp = check_pair(sig, call, ctx, tag, judge_dups)
-    if path == "both":
-        return pp is not None and pp[0] == clause
-    for p, kind, log, problem in res:
-        if p == path:
-            return problem is not None and problem[0] == clause
-    return False
+_FAILS_MEMO: dict = {}
+
+
+def _fails(sig, toks, path, clause, voff, tag, judge_dups, ctx, seam="node"):
+    """Does (sig, call) still fail `clause` on `path`?  Memoised: shrinks of neighbouring failures share most candidates."""
+    key = (sig, toks, voff, tag, judge_dups, seam)
+    got = _FAILS_MEMO.get(key)
+    if got is None:
+        if len(_FAILS_MEMO) > 200000:
+            _FAILS_MEMO.clear()
+        exp, res, pp = check_pair(sig, Call(toks, voff), ctx, tag, judge_dups, seam)
+        got = _FAILS_MEMO[key] = {"both": pp[0] if pp else None, **{p: (problem[0] if problem else None) for p, kind, log, problem in res}}
+    return got.get(path) == clause
 
 
 def sig_is_legal(sig):
@@ -354,7 +363,7 @@ def _simpler_tokens(t):
         return [[("P",)], [("P",), ("P",)]]
     if t[0] == "D":
         return [[("K", t[1])]]
-    if t[0] == "K" and t[1] == "class":
+    if t[0] == "K" and t[1] in ("class", "data-y"):
         return [[("K", "data-x")]]
     return []
 
@@ -377,12 +386,12 @@ def _rename(sig, toks):
     return tuple((k, d, m[n]) for k, d, n in sig), tuple(out)
 
 
-def shrink(sig, toks, path, clause, voff, tag, judge_dups, ctx, rename=True):
+def shrink(sig, toks, path, clause, voff, tag, judge_dups, ctx, rename=True, seam="node"):
     """Greedy delta: drop arguments / parameters / defaults, simplify tokens, rename - while the same clause still fails."""
     sig, toks = tuple(sig), tuple(toks)
 
     def fails(s, t):
-        return sig_is_legal(s) and _fails(s, t, path, clause, voff, tag, judge_dups, ctx)
+        return sig_is_legal(s) and _fails(s, t, path, clause, voff, tag, judge_dups, ctx, seam)
 
     changed = True
     while changed:
@@ -401,11 +410,29 @@ def shrink(sig, toks, path, clause, voff, tag, judge_dups, ctx, rename=True):
                 break
         if changed:
             continue
+        for i in range(len(sig)):  # a parameter together with one argument
+            for j in range(len(toks)):
+                cs, ct = sig[:i] + sig[i + 1:], toks[:j] + toks[j + 1:]
+                if fails(cs, ct):
+                    sig, toks, changed = cs, ct, True
+                    break
+            if changed:
+                break
+        if changed:
+            continue
         for i in range(len(sig)):
             if sig[i][1]:
                 cand = sig[:i] + ((sig[i][0], 0, sig[i][2]),) + sig[i + 1:]
                 if fails(cand, toks):
                     sig, changed = cand, True
+                    break
+        if changed:
+            continue
+        for k in ("class", "data-y"):  # all occurrences of a special key at once
+            if any(t[0] in "KD" and t[1] == k for t in toks):
+                cand = tuple(("K", "data-x") if (t[0] in "KD" and t[1] == k) else t for t in toks)
+                if fails(sig, cand):
+                    toks, changed = cand, True
                     break
         if changed:
             continue
@@ -462,7 +489,7 @@ def repro_script(sig, call, path):
     return "\n".join(lines)
 
 
-def report_failure(agg, state, part, sig, call, path, clause, text, voff, tag, judge_dups, ctx):
+def report_failure(agg, state, part, sig, call, path, clause, text, voff, tag, judge_dups, ctx, seam="node"):
     if state["shrinks"] >= MAX_SHRINKS_PER_WORKER:
         agg.failures_dropped += 1
         if not state["capped"]:
@@ -470,9 +497,9 @@ def report_failure(agg, state, part, sig, call, path, clause, text, voff, tag, j
             agg.caps.append(f"part {part}: more than {MAX_SHRINKS_PER_WORKER} failing pairs in one worker, the rest were counted only")
         return
     state["shrinks"] += 1
-    ssig, stoks = shrink(sig, call.toks, path, clause, voff, tag, judge_dups, ctx, rename=(part == "A"))
+    ssig, stoks = shrink(sig, call.toks, path, clause, voff, tag, judge_dups, ctx, rename=(part != "C"), seam=seam)
     scall = Call(stoks, voff)
-    if path != "both":
+    if path in ("fast", "fallback"):
         other = "fallback" if path == "fast" else "fast"
         if _fails(ssig, stoks, other, clause, voff, tag, judge_dups, ctx):
             path = "fast+fallback"
@@ -482,7 +509,7 @@ def report_failure(agg, state, part, sig, call, path, clause, text, voff, tag, j
         return
     state["idents"].add(ident)
     # explanation recomputed on the shrunk case
-    exp, res, pp = check_pair(ssig, scall, ctx, tag, judge_dups)
+    exp, res, pp = check_pair(ssig, scall, ctx, tag, judge_dups, seam)
     if path == "both":
         why = pp[1] if pp else text
     else:
@@ -490,7 +517,7 @@ def report_failure(agg, state, part, sig, call, path, clause, text, voff, tag, j
     what = f"{sig_text(ssig)} with {{% {tag} {scall.text} %}} [{path} path] vs Python `{scall.pysrc}`: {why}"
     case = {
         "part": part, "sig": [list(p) for p in ssig], "call": [list(t) for t in stoks], "path": path, "clause": clause,
-        "voff": voff, "tag": tag, "judge_dups": judge_dups,
+        "voff": voff, "tag": tag, "judge_dups": judge_dups, "seam": seam,
         "found_on": {"sig": sig_text(sig), "call": call.text},
         "repro": repro_script(ssig, scall, "fallback" if path == "fallback" else "fast"),
     }
@@ -829,7 +856,7 @@ def replay(ctx, case):
         ok = True
         for path, kind, log, problem in res:
             print(f"{path}: {kind} {log} -> {problem}")
-            if problem and case.get("path") in (path, "both", None):
+            if problem and (case.get("path") in ("both", None) or path in case["path"]):
                 ok = False
         if pp:
             print("paths:", pp)
